@@ -362,7 +362,7 @@ def judge_skip(text, schemas, main_bad):
     return calls, bad, labels, ''.join(vector)
 
 
-def judge_bytes(data, schemas, main_bad):
+def judge_bytes(data, schemas, main_bad, must_process=False):
     """A garbled byte string handed over as `bytes` (not wrapped in BytesIO): the library first decides whether
     it is a location or XML text.  XMLResource(data) eager and lazy and schema.is_valid(data) must end in a normal
     return or an XMLSchemaException (text that does not start with '<' is legitimately read as a location, so a
@@ -383,7 +383,9 @@ def judge_bytes(data, schemas, main_bad):
         except BaseException as e:                       # noqa
             name = type(e).__name__
             if isinstance(e, XMLResourceError):
-                kind, out = None, name
+                # must_process: a well-formed document of the encoding family (BOM / declared encoding), which the
+                # library has to take for XML text and process
+                kind, out = ('refused-wellformed' if must_process else None), name
             elif isinstance(e, XMLSchemaException):
                 kind, out = 'lax-raised', 'LAXRAISE'
             else:
@@ -424,8 +426,9 @@ def run_document(acc, prefix, text, entry, case, sigkind, timeout=20.0):
             calls, bad, labels, vector, wf = judge_document(text, entry['schemas'])
             hcalls, hbad, hlabels, hvector = judge_hints(text, entry['hint_schemas'], wf, bad, entry['hint_values'])
             scalls, sbad, slabels, svector = judge_skip(text, entry['schemas'], bad)
-            bcalls, bbad, blabels, bvector = (judge_bytes(text, entry['schemas'], bad) if isinstance(text, bytes)
-                                              else (0, [], [], ''))
+            bcalls, bbad, blabels, bvector = (
+                judge_bytes(text, entry['schemas'], bad, wf and sigkind.startswith('enc-'))
+                if isinstance(text, bytes) else (0, [], [], ''))
     except CaseTimeout:
         acc.ev()
         acc.out('HANG')
@@ -522,12 +525,43 @@ def decl_text(entry, enc):
     return b'<?xml version="1.0" encoding="' + enc.encode() + b'"?>' + data
 
 
+ENC_VARIANTS = ('utf8-bom', 'utf16le-bom', 'utf16be-bom', 'latin1-head', 'utf8-bom-decl')
+ENC_PREFIXES = (1, 2, 3, 4, 5, 6)
+
+
+def enc_text(entry, variant):
+    """Single-line byte strings (no 0x0A) of the seed in other encodings; all are well-formed documents."""
+    data = entry['data']
+    if data.startswith(b'<?xml'):
+        data = data[data.index(b'?>') + 2:].lstrip()
+    assert b'\n' not in data
+    text = data.decode('utf-8')
+    if variant == 'utf8-bom':
+        return b'\xef\xbb\xbf' + data
+    if variant == 'utf8-bom-decl':
+        return b'\xef\xbb\xbf<?xml version="1.0" encoding="UTF-8"?>' + data
+    if variant == 'utf16le-bom':
+        return b'\xff\xfe' + text.encode('utf-16-le')
+    if variant == 'utf16be-bom':
+        return b'\xfe\xff' + text.encode('utf-16-be')
+    if variant == 'latin1-head':
+        return b'<?xml version="1.0" encoding="latin1"?><!--\xe9\xff-->' + text.encode('latin-1', 'xmlcharrefreplace')
+    raise ValueError(variant)
+
+
 def run_decl(acc, entry):
-    """The seed behind an XML declaration naming an unknown / unsupported / mismatching / harmless encoding."""
+    """The seed behind an XML declaration naming an unknown / unsupported / mismatching / harmless encoding, and the
+    seed as a single-line byte string with a BOM / in UTF-16 / in latin-1 (plus its shortest truncations)."""
     for enc in DECL_ENCODINGS:
         prefix = 'C11|decl|%s|encoding=%s' % (entry['id'], enc)
         run_document(acc, prefix, decl_text(entry, enc), entry, {'kind': 'decl', 'doc': entry['id'], 'enc': enc},
                      'decl-' + enc)
+    for variant in ENC_VARIANTS:
+        data = enc_text(entry, variant)
+        for n in (None,) + ENC_PREFIXES:
+            prefix = 'C11|enc|%s|%s%s' % (entry['id'], variant, '' if n is None else '|len=%d' % n)
+            run_document(acc, prefix, data if n is None else data[:n], entry,
+                         {'kind': 'enc', 'doc': entry['id'], 'variant': variant, 'len': n}, 'enc-' + variant)
 
 
 def run_trunc(acc, entry):
@@ -863,6 +897,11 @@ def replay(case):
     elif kind == 'decl':
         text = decl_text(entry, case['enc'])
         prefix = 'C11|decl|%s|encoding=%s' % (entry['id'], case['enc'])
+    elif kind == 'enc':
+        text = enc_text(entry, case['variant'])
+        n = case['len']
+        prefix = 'C11|enc|%s|%s%s' % (entry['id'], case['variant'], '' if n is None else '|len=%d' % n)
+        text = text if n is None else text[:n]
     elif kind == 'trunc':
         text = entry['data'][:case['len']]
         prefix = 'C11|trunc|%s|len=%d' % (entry['id'], case['len'])
@@ -879,7 +918,7 @@ def replay(case):
     out = (discrepancies(prefix, bad, calls) + discrepancies(prefix + '|hints', hbad, hcalls)
            + discrepancies(prefix + '|skip', sbad, scalls))
     if isinstance(text, bytes):
-        bcalls, bbad, _bl, _bv = judge_bytes(text, entry['schemas'], bad)
+        bcalls, bbad, _bl, _bv = judge_bytes(text, entry['schemas'], bad, wf and kind == 'enc')
         out += discrepancies(prefix + '|bytes', bbad, bcalls)
     return out
 
